@@ -106,6 +106,22 @@ def selector(m):
     return f"{pkg_of(m)}.{m['service']}.{m['name']}"
 
 
+# request messages of methods marked `shared` are declared in a file of ANOTHER package that is part of the request's
+# proto_file but not of file_to_generate (a shared / common request type: the generator's "no proto-plus wrapper" branch)
+SHARED_PKG = "acme.shared.v1"
+SHARED_FILE = "acme/shared/v1/requests.proto"
+
+
+def req_full(m):
+    return f"{SHARED_PKG if m.get('shared') else pkg_of(m)}.{m['name']}Request"
+
+
+def mk_request(files, params):
+    """CodeGeneratorRequest: every file is in proto_file, the shared-requests file is not in file_to_generate"""
+    targets = [f for f in files if f.name != SHARED_FILE]
+    return apigen.request(files, params, targets=targets if len(targets) != len(files) else None)
+
+
 def build_files(spec):
     f = apigen.File("acme/ids/v1/ids.proto", PKG)
     f.enum("Color", ["COLOR_UNSPECIFIED", "RED", "BLUE"])
@@ -118,17 +134,27 @@ def build_files(spec):
     meta.field("progress", "int32")
     services = {}
     root, by_pkg = f, {PKG: f}
+    shared = None
+    if any(m.get("shared") for m in spec["methods"]):
+        shared = apigen.File(SHARED_FILE, SHARED_PKG)
+        shared.enum("Color", ["COLOR_UNSPECIFIED", "RED", "BLUE"])
+        sh_inner = shared.msg("Inner")
+        sh_inner.field("request_id", uuid4=True)
+        sh_inner.field("label")
+        root.dep(SHARED_FILE)
     for m in spec["methods"]:
         f = by_pkg.get(pkg_of(m))
         if f is None:
             sub = pkg_of(m)[len(PKG) + 1:].split(".")
             f = by_pkg[pkg_of(m)] = apigen.File("acme/ids/v1/" + "/".join(sub) + f"/{sub[-1]}.proto", pkg_of(m))
             f.dep(root.name)
-        rq = f.msg(m["name"] + "Request")
+        if m.get("shared"):
+            f.dep(SHARED_FILE)
+        rq = (shared if m.get("shared") else f).msg(m["name"] + "Request")
         rq.field("parent")
         rq.field("note")
         if m.get("nested"):
-            rq.field("inner", "message", type_name=inner)
+            rq.field("inner", "message", type_name=sh_inner if m.get("shared") else inner)
         flavor = m.get("flavor", "plain")
         out_type, lro = thing, None
         if flavor == "paged":
@@ -145,9 +171,9 @@ def build_files(spec):
             typ, optional, uuid4, required, repeated, other = KINDS[fd["kind"]]
             kw = {}
             if typ == "message":
-                kw["type_name"] = inner
+                kw["type_name"] = sh_inner if m.get("shared") else inner
             if typ == "enum":
-                kw["type_name"] = ".acme.ids.v1.Color"
+                kw["type_name"] = f".{SHARED_PKG}.Color" if m.get("shared") else ".acme.ids.v1.Color"
             pbf = rq.field(fd["name"], typ, repeated=repeated, optional=optional, uuid4=uuid4, required=required, **kw)
             if other:
                 from google.api import field_info_pb2
@@ -159,7 +185,7 @@ def build_files(spec):
         uri = "/v1/{parent=shelves/*}/" + m["name"].lower()
         svc.method(m["name"], rq, out_type, http=(m["http"], uri), body="*" if m["http"] == "post" else None,
                    sigs=[",".join(m["sig"])] if m["sig"] else (), cs=cs, ss=ss, lro=lro)
-    return list(by_pkg.values())
+    return ([shared] if shared else []) + list(by_pkg.values())
 
 
 # ---------------------------------------------------------------------------------------------------
@@ -393,7 +419,7 @@ def write_yaml(settings, rest_async=True, selective=None):
 def make_request(spec, settings, transport="grpc+rest", rest_async=True):
     path = write_yaml(settings, rest_async, spec.get("selective"))
     files = build_files(spec)
-    return files, apigen.request(files, f"transport={transport},autogen-snippets=false,service-yaml={path}"), path
+    return files, mk_request(files, f"transport={transport},autogen-snippets=false,service-yaml={path}"), path
 
 
 def api_json(api):
@@ -402,12 +428,17 @@ def api_json(api):
     strt = wrappers.PrimitiveType.build(str)
     out = []
     for sel, m in api.all_methods.items():
-        msg = api.messages[m.input.ident.proto]
+        msg = m.input          # the method's own request message (== api.messages[...] whenever that lookup succeeds)
         out.append({"selector": sel, "cs": bool(m.client_streaming), "ss": bool(m.server_streaming),
                     "input": [{"name": n, "str": f.type == strt, "required": bool(f.required), "uuid4": bool(f.uuid4),
                                "optional": bool(f.proto3_optional), "repeated": bool(f.repeated)}
                               for n, f in msg.fields.items()]})
     return out
+
+
+def hidden_of(api):
+    """selectors of the methods whose request message is not among `API.messages` (declared in a dependency file)"""
+    return sorted(sel for sel, m in api.all_methods.items() if m.input.ident.proto not in api.messages)
 
 
 def render_views(api):
@@ -733,7 +764,7 @@ def t3(ctx, r, spec, settings, klass, script=None, paths=ALL_PATHS, run_tests=Fa
         aj0 = aj
         if spec.get("selective"):
             # the declared API (what the model prunes) vs the API the generator works on (what the real code pruned)
-            api0, _ = genrun.build_api(apigen.request(files, "transport=grpc+rest,autogen-snippets=false"))
+            api0, _ = genrun.build_api(mk_request(files, "transport=grpc+rest,autogen-snippets=false"))
             aj0 = api_json(api0)
         want, viol = statement_ok(spec, settings)
         mo = model_generation(ctx, api, aj0, [settings], spec.get("selective"))[0]
@@ -751,7 +782,9 @@ def t3(ctx, r, spec, settings, klass, script=None, paths=ALL_PATHS, run_tests=Fa
                 return
         ctx.case({"settings": settings, "class": klass, "generation": "ok" if ok else etype},
                  distinct_key=["t3", json.dumps(spec, sort_keys=True), json.dumps(settings, sort_keys=True)])
-        ctx.count("generation_outcome", ("accepted" if ok else "MethodSettingsError") + "/" + klass.split(":")[0])
+        ctx.count("generation_outcome", ("accepted" if ok else etype) + "/" + klass.split(":")[0])
+        if any(m.get("shared") for m in spec["methods"]):
+            ctx.count("generation_shared_request", klass.split(":")[0] + "/" + ("accepted" if ok else etype))
         ctx.count("generation_layout", spec.get("layout", "flat") + ("/accepted" if ok else "/rejected"))
         if spec.get("selective"):
             ctx.count("generation_selective", ("internal" if spec["selective"].get("internal") else "omit") + "/" + klass.split(":")[0] + ("/accepted" if ok else "/rejected"))
@@ -769,6 +802,9 @@ def t3(ctx, r, spec, settings, klass, script=None, paths=ALL_PATHS, run_tests=Fa
             # internal methods (generate_omitted_as_internal) are emitted with a leading underscore
             return snake(api.all_methods[selector(mm)].client_method_name)
         root = genrun.materialise(res)
+        for fl in files:
+            if fl.name == SHARED_FILE:
+                genrun.materialise_pb2(root, fl.pb)        # the dependency's own module (what protoc's python plugin would give)
         script = script or gen_script(r, spec, settings, ctx.n(5, 8))
         payload = dict(payload, script=script)
         codec = rpc.Codec(files)
@@ -870,7 +906,7 @@ def t3(ctx, r, spec, settings, klass, script=None, paths=ALL_PATHS, run_tests=Fa
                 if len(res_["server"]) != npages:
                     ctx.fail("server-calls", f"{path} {mm['name']}: server saw {len(res_['server'])} requests, expected {npages}", p2)
                     continue
-                full = f"{pkg_of(mm)}.{mm['name']}Request"
+                full = req_full(mm)
                 caller = {} if call["mode"] == "none" else script["objects"][call["obj"]]["values"]
                 reuse_of = first_populated.get(call["obj"]) if call["mode"] == "inst" else None
                 for page, rec in enumerate(res_["server"]):
@@ -1019,14 +1055,21 @@ def run(ctx):
                 "package and one in a sub-package, either way round; each service in a sub-package of its own; a sub-package of a sub-package), "
                 "generated through the real Generator with autogen-snippets=false: per service a valid list, every single violation, a duplicate, "
                 "lists spanning both services, the wrong-package spellings of a selector; call time through the emitted sub-package clients. "
+                "APIs some or all of whose request messages are declared in a dependency file of another package (in proto_file, not in "
+                "file_to_generate; own Inner/Color there): valid entries, every defective declaration, missing, nested, streaming, unknown selector, "
+                "duplicates, next to entries of ordinary methods in both orders — T2, the real Generator, and call time through the emitted clients "
+                "(plain protobuf request classes: instance / dict / kwargs / no request). "
                 "Service yamls that carry method_settings AND library_settings…selective_gapic_generation (allow-list = a proper subset of the "
-                "methods; omit mode and generate_omitted_as_internal): settings lists with selectors inside / outside the allow-list x existing / "
+                "methods; omit mode and generate_omitted_as_internal; services in one package or in several package views): settings lists with selectors inside / outside the allow-list x existing / "
                 "non-existing (misspelt method, misspelt service, foreign API), each single violation on an allow-listed method, duplicates, random "
                 "lists — T2 on the schema object built from that yaml, generation through the real Generator, call time on the pruned library and "
                 "on internal (underscore) methods. "
                 "distinct = (settings list) for T2/T3-generation, (settings, path, call, caller object) for calls; every generated case is non-trivial")
-    ctx.assume("string members of a real oneof, request messages from another proto package (no proto-plus wrapper), field names that are Python "
-               "reserved words are outside the quantifier's declaration list and are not generated")
+    ctx.assume("string members of a real oneof and field names that are Python reserved words are outside the quantifier's declaration list and "
+               "are not generated")
+    ctx.assume("a method whose request message is declared in a dependency file is not paginated here: the emitted pager copies the request "
+               "with `RequestType(request)`, which a plain protobuf class refuses (TypeError 'No positional arguments allowed' on every call, with "
+               "or without method settings) — pagination is C07's subject")
     ctx.assume("the emitted unit tests of the feature are run for information only (counters/notes): a field listed twice in one entry makes them "
                "fail while the library behaves as the statement says — an excluded shape of C13, not a C18 matter")
     ctx.assume("the follow-up requests of a paginated call are not calls of their own: the oracle asks them for a v4 id (or the caller's value), "
@@ -1037,9 +1080,7 @@ def run(ctx):
                "and pairwise distinctness of every id the servers saw")
     ctx.assume("APIs with services in sub-packages are generated with autogen-snippets=false (snippet generation raises KeyError for such services: "
                "C14/C01's subject); request and response messages live in the file of their service")
-    ctx.assume("selective GAPIC generation is combined with method settings for APIs whose services all live in ONE package (flat, or all in one "
-               "sub-package): with services in several packages every allow-list is rejected by a sub-package view's all_library_settings "
-               "(ClientLibrarySettingsError 'Method does not exist.': library settings are C16's subject); allow-lists name existing methods only")
+    ctx.assume("selective GAPIC generation: allow-lists name existing methods only (an invalid allow-list is C16's subject)")
     ctx.assume("omit mode: an otherwise valid entry for a declared method that selective generation leaves out of the API is neither required to "
                "generate nor to fail (the statement's 'the method exists' is not settled for it; the code answers 'Method was not found.', which the "
                "model follows: omitted_method_settings_rejected); any other violation in such a list must still abort the generation")
@@ -1049,7 +1090,7 @@ def run(ctx):
     for a in range(napis):
         spec = gen_spec(r, must_have=SINGLE_DEFECTS if a % 2 == 0 else SINGLE_DEFECTS[::-1])
         files = build_files(spec)
-        req = apigen.request(files, "transport=grpc+rest,autogen-snippets=false")
+        req = mk_request(files, "transport=grpc+rest,autogen-snippets=false")
         api, _ = genrun.build_api(req)
         aj = api_json(api)
         lists = [gen_settings(r, spec) for _ in range(ctx.n(60, 150))]
@@ -1074,7 +1115,17 @@ def run(ctx):
                run_tests=((n_ == 0 and a == 0) or not ctx.quick) and klass.startswith(("valid", "shape")))
             ctx.count("stream", "generated")
     run_layouts(ctx, ctx.rng("layouts"), ctx.n(1, 2), ctx.n(1, 30), ctx.n(1, 2))
+    run_shared(ctx, ctx.rng("shared-requests"), ctx.n(1, 3), ctx.n(20, 80), ctx.n(14, 60), layouts=("flat",) if ctx.quick else ("flat", "allsub"),
+               ncalls=ctx.n(1, 3))
     run_selective(ctx, ctx.rng("selective"), ctx.n(1, 2), ctx.n(30, 100), ctx.n(6, 15), layouts=("flat",) if ctx.quick else ("flat", "allsub"))
+    # … and with the services in several package views (library settings are validated against the whole API since 11fcd33)
+    sd = int(ctx.seed or 0)
+    multi = ["mixed", "twosubs", "nested", "mixed_rev"]
+    if ctx.quick:
+        run_selective(ctx, ctx.rng("selective-multi"), 1, 20, 5, layouts=(multi[sd % 4],), modes=(bool(sd // 4 % 2),))
+        run_selective(ctx, ctx.rng("selective-multi2"), 1, 20, 5, layouts=(multi[(sd + 2) % 4],), modes=(not bool(sd // 4 % 2),))
+    else:
+        run_selective(ctx, ctx.rng("selective-multi"), 1, 60, 12, layouts=tuple(multi))
 
 
 def layout_lists(r, spec, nrandom, thin=False):
@@ -1125,7 +1176,7 @@ def run_layouts(ctx, r, napis, nrandom, ncalls, layouts=None):
         for a in range(napis):
             spec = gen_spec(r, must_have=SINGLE_DEFECTS if a % 2 == 0 else SINGLE_DEFECTS[::-1], layout=layout)
             files = build_files(spec)
-            api, _ = genrun.build_api(apigen.request(files, "transport=grpc+rest,autogen-snippets=false"))
+            api, _ = genrun.build_api(mk_request(files, "transport=grpc+rest,autogen-snippets=false"))
             lists = layout_lists(r, spec, nrandom, thin=ctx.quick and not layouts)
             t2(ctx, api, api_json(api), spec, lists, f"{layout}{a}")
             # call time: the list spanning both services first (both sub-package clients), then other accepted valid lists
@@ -1224,19 +1275,92 @@ def run_selective(ctx, r, napis, nrandom, nt3, layouts=("flat",), modes=(False, 
                         t3(ctx, r, spec, settings, klass)
 
 
+def shared_lists(r, spec, nrandom):
+    """settings lists for an API some of whose request messages are declared in a dependency file of another package:
+    valid, each single violation (every defective declaration of the request, missing, nested, streaming, unknown selector),
+    duplicates — on the methods with such a request, alone and next to entries of ordinary methods"""
+    sh = [m for m in spec["methods"] if m.get("shared")]
+    sh_unary = [m for m in sh if m["streaming"] == "unary"]
+    plain_unary = [m for m in spec["methods"] if not m.get("shared") and m["streaming"] == "unary"]
+    lists = []
+    for m in sh_unary:
+        good = [f["name"] for f in m["fields"] if f["kind"] in OK_KINDS]
+        lists.append(([{"selector": selector(m), "fields": good[:1]}], "valid:shared"))
+        lists.append(([{"selector": selector(m), "fields": []}], "valid:shared-no-fields"))
+        for f in m["fields"]:
+            if f["kind"] not in OK_KINDS:
+                lists.append(([{"selector": selector(m), "fields": r.pick([[f["name"]], good[:1] + [f["name"]]])}], "violation:shared:kind:" + f["kind"]))
+        lists.append(([{"selector": selector(m), "fields": ["parent"]}], "violation:shared:kind:unannotated"))
+        sub = dict(spec, methods=[x for x in sh if x["service"] == m["service"]])
+        for which in ("missing", "nested", "no-method", "streaming"):
+            e = [{"selector": selector(m), "fields": good[:1]}]
+            lists.append((e, "violation:shared:" + inject(r, sub, e, which)))
+        lists.append(([{"selector": selector(m), "fields": good[:1]}, {"selector": selector(m), "fields": good[:1]}], "duplicate:shared"))
+        if plain_unary:
+            p = r.pick(plain_unary)
+            bad = [f["name"] for f in m["fields"] if f["kind"] not in OK_KINDS] or ["parent"]
+            # an ordinary valid entry next to an invalid one on the shared request (both orders), and the other way round
+            e = [good_entry(r, p, allow_empty=False), {"selector": selector(m), "fields": [r.pick(bad)]}]
+            lists.append((e, "violation:plain-valid+shared-invalid"))
+            lists.append((list(reversed(e)), "violation:shared-invalid+plain-valid"))
+            pe = good_entry(r, p, allow_empty=False)
+            pe["fields"] = pe["fields"] + ["nope"]
+            lists.append(([{"selector": selector(m), "fields": good[:1]}, pe], "violation:shared-valid+plain-invalid"))
+            lists.append(([good_entry(r, p, allow_empty=False), {"selector": selector(m), "fields": good[:1]}], "valid:plain+shared"))
+    lists += [gen_settings(r, spec) for _ in range(nrandom)]
+    return lists
+
+
+def run_shared(ctx, r, napis, nrandom, nt3, layouts=("flat",), ncalls=1):
+    """request messages declared in a dependency file of another package (in proto_file, not in file_to_generate)"""
+    for layout in layouts:
+        for a in range(napis):
+            spec = gen_spec(r, must_have=SINGLE_DEFECTS if a % 2 == 0 else SINGLE_DEFECTS[::-1], layout=layout)
+            every = (a + int(ctx.seed or 0)) % 2 == 0
+            for i, m in enumerate(spec["methods"]):
+                if every or i % 2 == 0:
+                    m["shared"] = True          # all request messages / every other one
+                    if m.get("flavor") == "paged":
+                        m["flavor"] = "plain"   # see the assumption: the emitted pager cannot copy a plain protobuf request
+            files = build_files(spec)
+            api, _ = genrun.build_api(mk_request(files, "transport=grpc+rest,autogen-snippets=false"))
+            lists = shared_lists(r, spec, nrandom)
+            t2(ctx, api, api_json(api), spec, lists, f"shared-{layout}{a}")
+            fixed = [x for x in lists if ":shared" in x[1] or "+shared" in x[1] or "shared-" in x[1]]
+            seen, pick = set(), []
+            for x in fixed:                      # one list per class first, then the rest
+                if x[1] not in seen:
+                    seen.add(x[1])
+                    pick.append(x)
+            pick += [x for x in fixed if x not in pick]
+            ctx.count("hidden_request_methods", len(hidden_of(api)))
+            done = 0
+            # call time first on a list that has entries of an ordinary AND of a shared request, then on shared-only lists
+            pick.sort(key=lambda x: (x[1] != "valid:plain+shared", x[1] != "valid:shared"))        # stable
+            for n_, (settings, klass) in enumerate(pick[:nt3]):
+                before = ctx.distribution.get("generation_shared_request", {}).get("valid/accepted", 0)
+                go = klass in ("valid:plain+shared", "valid:shared") and done < ncalls
+                paths = ALL_PATHS if not ctx.quick else [("sync", "rest_asyncio"), ("asyncio", "rest")][(n_ + a + int(ctx.seed or 0)) % 2]
+                t3(ctx, r, spec, settings, klass, calls=go, paths=paths, run_tests=go and not ctx.quick)
+                if go and ctx.distribution.get("generation_shared_request", {}).get("valid/accepted", 0) > before:
+                    done += 1
+                ctx.count("stream", "generated-shared-request")
+
+
 def search(ctx):
     r = ctx.rng("search")
     for a in range(6):
         spec = gen_spec(r, must_have=SINGLE_DEFECTS)
         files = build_files(spec)
-        api, _ = genrun.build_api(apigen.request(files, "transport=grpc+rest,autogen-snippets=false"))
+        api, _ = genrun.build_api(mk_request(files, "transport=grpc+rest,autogen-snippets=false"))
         aj = api_json(api)
         lists = [gen_settings(r, spec) for _ in range(200)]
         t2(ctx, api, aj, spec, lists, f"search{a}")
         for settings, klass in [x for x in lists if x[1] == "valid"][:3]:
             t3(ctx, r, spec, settings, klass)
     run_layouts(ctx, ctx.rng("search-layouts"), 3, 40, 1)
-    run_selective(ctx, ctx.rng("search-selective"), 3, 200, 40, layouts=("flat", "allsub"))
+    run_shared(ctx, ctx.rng("search-shared"), 3, 200, 80, layouts=("flat", "allsub", "mixed"))
+    run_selective(ctx, ctx.rng("search-selective"), 2, 200, 40, layouts=("flat", "allsub", "mixed", "twosubs", "nested", "mixed_rev"))
 
 
 def replay(ctx, payload):
@@ -1246,7 +1370,7 @@ def replay(ctx, payload):
        paths=tuple(payload.get("paths", ALL_PATHS)), run_tests=bool(payload.get("run_tests")) or "test" in str(payload.get("class")))
     if not ctx.failures:
         files = build_files(payload["spec"])
-        api, _ = genrun.build_api(apigen.request(files, "transport=grpc+rest,autogen-snippets=false"))
+        api, _ = genrun.build_api(mk_request(files, "transport=grpc+rest,autogen-snippets=false"))
         t2(ctx, api, api_json(api), payload["spec"], [(payload["settings"], payload.get("class", "replay"))], "replay")
     for f in ctx.failures:
         print("  failure:", f["key"], "-", f["what"])
@@ -1268,14 +1392,18 @@ CLAIM = dict(
           'entries, and that the follow-up requests of a paginated call repeat the first id. Tie: T2 real enforce_valid_method_settings vs the model '
           'on generated settings lists (incl. reversed and shaped lists); T3 generation outcome (MethodSettingsError + YAML error map) of the real '
           'Generator vs the model, also for APIs whose services live in proto sub-packages (five layouts) and for service yamls that switch on '
-          'selective GAPIC generation (omit / internal mode; the model prunes the declared API itself: selective_generation_rejects_invalid), '
+          'selective GAPIC generation (omit / internal mode; the model prunes the declared API itself: selective_generation_rejects_invalid) and '
+          'for methods whose request message is declared in a dependency file of another package (validated like any other: '
+          'hidden_request_never_accepted; call time on plain protobuf request classes), '
           'the requests seen by loopback gRPC/HTTP servers across programs of calls (literal instance/dict/kwargs/no request, two clients, the same '
           'object twice, paginated and LRO methods) on four paths vs the model, the statement order and import gate of the emitted client modules, '
           '(the emitted unit tests of the feature are run for information only); a model-independent oracle restating AIP-4235.'),
     technique='Lean 4 theorems (loop invariants over the settings list and over the macro loop) + differential T2/T3 against the real validation and the emitted clients',
     design='7.18',
     note=('One departure of the code from the statement is proved as a _counterexample theorem and recorded as a known finding: a request INSTANCE '
-          "that is passed twice re-sends the first id because the emitted code populates the caller's object in place. (A VALID settings entry "
+          "that is passed twice re-sends the first id because the emitted code populates the caller's object in place. (A bare KeyError for every "
+          'entry listing fields of a request message declared in a file that is not generated was repaired in /repo by f83c180; corpus entries = '
+          'regression inputs, valid_entry_on_hidden_request_accepted = regression theorem.) (A VALID settings entry '
           'being rejected with "Method was not found." when another service of the API lives in a proto sub-package was repaired in /repo by '
           'cb5c413: every view now validates against the whole API; corpus entry = regression input, generation_accepts_valid = regression theorem.) '
           'The emitted unit tests of the '
